@@ -639,8 +639,12 @@ func (t *Target) gnmiRemove(n *pb.Notification) []*ctree.Leaf {
 		t.meta.ResetEntry(path[1])
 	}
 	var leaves []*ctree.Leaf
+	var metaDeleted int64
 	f := func(v interface{}) {
 		d := v.(*pb.Notification)
+		if p := joinPrefixAndPath(d.GetPrefix(), d.Update[0].GetPath()); len(p) > 0 && p[0] == metadata.Root {
+			metaDeleted++
+		}
 		leaves = append(leaves, ctree.DetachedLeaf(toDeleteNotification(d, n.GetTimestamp())))
 	}
 	t.t.WalkDeleted(path, func(v interface{}) bool { return v.(*pb.Notification).GetTimestamp() < n.GetTimestamp() }, f)
@@ -648,6 +652,9 @@ func (t *Target) gnmiRemove(n *pb.Notification) []*ctree.Leaf {
 		return nil
 	}
 	deleted := int64(len(leaves))
+	// Metadata leaves are not counted when they are added, so they must not
+	// be counted when they are deleted either.
+	deleted -= metaDeleted
 	t.meta.AddInt(metadata.LeafCount, -deleted)
 	t.meta.AddInt(metadata.DelCount, deleted)
 	return leaves
